@@ -391,7 +391,7 @@ func main() {
 var plainNames = []string{"a", "b", "c", "d", "e", "g"}
 
 // naming modes of a flat parameter list of length n
-var flatModes = []string{"named", "blank-some", "blank-all", "unnamed", "one-f", "prefix-clash", "prefix-plain", "gen-names", "blank-f"}
+var flatModes = []string{"named", "blank-some", "blank-all", "unnamed", "one-f", "prefix-clash", "prefix-plain", "gen-names", "blank-f", "common-names"}
 
 func nameParams(r *hx.Rand, mode string, n int) []string {
 	ns := make([]string, n)
@@ -442,6 +442,15 @@ func nameParams(r *hx.Rand, mode string, n int) []string {
 		j := (k + 1 + r.Intn(n-1)) % n
 		ns[k] = "_"
 		ns[j] = "f"
+	case "common-names":
+		// identifiers a generator is likely to pick for a name of its own (the bound value of apply,
+		// a temporary, the returned closure): a wrapper that starts using one of them is shadowed by a
+		// parameter of that name
+		pool := []string{"arg", "args", "v", "x", "val", "value", "fn", "h", "res", "result", "out", "in", "err", "ok", "i", "n", "tmp", "curried", "flipped", "applied", "last", "first", "rest", "this", "that"}
+		hx.Shuffle(r, pool)
+		for i := range ns {
+			ns[i] = pool[i]
+		}
 	}
 	return ns
 }
